@@ -37,13 +37,9 @@ def main():
         mod = importlib.import_module(pid.lower())
         mod.run(rep, a.repo, tier)
     except AnalysisBroken as e:
-        if any(not i['ok'] for i in rep.instances):
-            # violations found before the analysis broke are reported; the run still counts as broken unless one of them is
-            # a violation that the known-findings file does not list
-            rep.defer_broken(e)
-            rc = rep.finish()
-            if rc == 1:
-                return 1
+        # an unrecognised form stops the check: instances that failed before it may be consequences of the same unrecognised
+        # form, so nothing is reported as a violation.  A rule whose failure must not hide the verdicts of the rules after it
+        # uses rep.defer_broken() instead of raising.
         print('ANALYSIS-BROKEN property=%s %s' % (pid, e))
         rep.write_evidence({}, [], [], [str(e)])
         return 2
